@@ -90,10 +90,13 @@ Addable(q) ==
     /\ \A p \in Pools : Used(q, p) => PoolActive(q.regime, p)
     /\ q.oOutN > 0 => CrossAddress(q, "o")
 
+\* A bundle the caller asked for - by adding something to it or by BundlePadding.bundle_required -
+\* must have a slot in the transaction format: the builder may neither drop a bundle it charged for
+\* nor hand out a transaction that cannot be encoded.
 Unsupported(q) ==
     \/ ~Addable(q)
     \/ ~VersionValid(EffVersion(q), q.regime)
-    \/ \E p \in Pools : Used(q, p) /\ ~Carries(EffVersion(q), p)
+    \/ \E p \in Pools : Wanted(q, p) /\ ~Carries(EffVersion(q), p)
 
 (* ---------------------------------------------------------------------------------------- *)
 (* Sizes of transparent inputs and outputs as the fee rule sees them.                        *)
@@ -231,7 +234,10 @@ OkPaysFee(q) ==
         IN  /\ vb.t + vb.s + vb.o + vb.i = FeeOf(q)
             /\ FeeOf(q) = RuleFee(q.rule, PaddedCounts(q))
             /\ VersionValid(EffVersion(q), q.regime)
-            /\ \A p \in Pools : Used(q, p) => Carries(EffVersion(q), p) /\ PoolActive(q.regime, p)
+            /\ \A p \in Pools : Wanted(q, p) => Carries(EffVersion(q), p) /\ PoolActive(q.regime, p)
+            \* every bundle that is charged for is emitted and has a slot in the format
+            /\ (PaddedCounts(q).ao > 0 => Carries(EffVersion(q), "o"))
+            /\ (PaddedCounts(q).ai > 0 => Carries(EffVersion(q), "i"))
 
 \* padding only adds: every bundle is at least as large as requested, and the fee never drops
 PaddingCovers(q) ==
